@@ -1,7 +1,7 @@
 #!/bin/bash
 # usage: docs/C10.mutants.sh <mutant>... ; applies each hand-made mutant of spec_classes/methods/core.py in a scratch
 # worktree (/tmp/wt-c10, removed afterwards) and runs `bin/check C10 quick` against it.  Mutants: early_true
-# compare_false_counts missing_eq_none repr_skips_last repr_order subclass_equal probe_spec_class_objects old_eq
+# compare_false_counts missing_eq_none repr_skips_last repr_order subclass_equal probe_spec_class_objects redefault_drops_compare old_eq
 # old_deepcopy old_repr (code 2
 # expected) and type_is deep_marker (model drift, no-failing-input-found, expected).
 set -u
@@ -14,6 +14,8 @@ run() {
   /venv/bin/python - "$F" "$name" <<'PY'
 import sys
 p, name = sys.argv[1], sys.argv[2]
+if name == "redefault_drops_compare":      # (seeded/C10-B1) lives in spec_class.py
+    p = p.replace("methods/core.py", "spec_class.py")
 s = open(p).read()
 def rep(old, new):
     global s
@@ -57,6 +59,8 @@ elif name == "probe_spec_class_objects":
                     indent=indent, compact=compact_children
                 )
 """)
+elif name == "redefault_drops_compare":
+    rep('                "repr",\n                "compare",\n                "hash",', '                "repr",\n                "hash",')
 elif name == "subclass_equal":
     rep("        if not isinstance(other, self.__class__):\n            return False", "        if not isinstance(other, self.__class__):\n            return NotImplemented")
 open(p, "w").write(s)
